@@ -288,6 +288,30 @@ func (f *Frame) applyContract(spec *UnitSpec, name string, c *ssa.CallCommon, si
 		calleePkg = rootFn(callee).Pkg
 	}
 	calleeGhosts := map[string]TV{}
+	// free variables of a closure callee: bound by the MakeClosure visible at the call site (captured variables are
+	// cells: the contract sees the cell's current content under the variable's name)
+	freeVar := func(cur *State, n string) (TV, bool) {
+		mc, ok := c.Value.(*ssa.MakeClosure)
+		if !ok {
+			return TV{}, false
+		}
+		cf, ok := mc.Fn.(*ssa.Function)
+		if !ok {
+			return TV{}, false
+		}
+		for i, fv := range cf.FreeVars {
+			if fv.Name() != n || i >= len(mc.Bindings) {
+				continue
+			}
+			bv := f.val(mc.Bindings[i], cur)
+			if pt, isPtr := fv.Type().Underlying().(*types.Pointer); isPtr && bv.LV != nil {
+				lv := u.loadLV(bv.LV, pt.Elem(), cur)
+				return TV{T: lv.T, Ty: pt.Elem()}, true
+			}
+			return TV{T: bv.T, Ty: fv.Type()}, true
+		}
+		return TV{}, false
+	}
 	mkEnv := func(cur *State, extra map[string]TV) *Env {
 		e := &Env{u: u, st: cur, old: pre, bound: map[string]boundVar{}, pkg: pkg, qctr: &u.qctr}
 		e.lookup = func(e *Env, n string) (TV, bool) {
@@ -303,6 +327,9 @@ func (f *Frame) applyContract(spec *UnitSpec, name string, c *ssa.CallCommon, si
 				if tv, ok := argMap[n[:len(n)-1]]; ok {
 					return tv, true
 				}
+			}
+			if tv, ok := freeVar(e.st, n); ok {
+				return tv, true
 			}
 			// ghost variables local to the callee's contract: unknown to the caller (an arbitrary value per call)
 			for _, g := range spec.Ghosts {
@@ -740,6 +767,24 @@ func (f *Frame) atPoint(where string, st *State, b *ssa.BasicBlock, idx int) {
 				}
 			} else if f.lastCallResult.T.S != "" {
 				extra["$result"] = TV{T: f.lastCallResult.T, Ty: f.lastCallResult.Ty}
+			}
+		}
+		// range indices of the enclosing range loops: $i<ordinal>
+		for _, o := range f.loops {
+			if !o.body[b] {
+				continue
+			}
+			for _, ins := range o.head.Instrs {
+				p, ok := ins.(*ssa.Phi)
+				if !ok {
+					break
+				}
+				if v, has := f.vals[p]; has && p.Comment == "rangeindex" {
+					if extra == nil {
+						extra = map[string]TV{}
+					}
+					extra[fmt.Sprintf("$i%d", o.ord)] = TV{T: v.T, Ty: p.Type()}
+				}
 			}
 		}
 		if f.beforeArgs != nil {
